@@ -28,7 +28,7 @@ func c12Docs() map[string]string {
 	atoms := c11Atoms
 	s := ora.StdSkeletons(atoms)
 	rich1 := (&ora.DocModel{Skel: "S2", Top: append(append([]int{}, s[1].Top...), ora.AtomIndex(atoms, "PAGER")...), ArtC: append(append([]int{}, s[1].ArtC...), ora.AtomIndex(atoms, "TBLd", "FIG", "YTq")...)}).Render(atoms)
-	rich2 := (&ora.DocModel{Skel: "S1", Top: s[0].Top, ArtC: append(append([]int{}, s[0].ArtC...), ora.AtomIndex(atoms, "UL3", "JS1", "INL", "LBL", "LAZYs", "SCH2")...)}).Render(atoms)
+	rich2 := (&ora.DocModel{Skel: "S1", Top: s[0].Top, ArtC: append(append([]int{}, s[0].ArtC...), ora.AtomIndex(atoms, "UL3", "JS1", "INL", "LBL", "LAZYs", "SCH2", "EMBp")...)}).Render(atoms)
 	return map[string]string{"min": min, "rich1": rich1, "rich2": rich2}
 }
 
@@ -201,6 +201,14 @@ func c12Check(c *eng.Case) *eng.Outcome {
 	if !ok {
 		o.Skipped = "unknown scenario"
 		return o
+	}
+	for _, n := range verifrt.Notes {
+		if strings.Contains(n, "go statement") {
+			// the library starts goroutines of its own: the cooperative scheduler does not control
+			// them, so interleavings cannot be enumerated; the race-detector pass still runs
+			o.Skipped = "library spawns goroutines (not modelled by the scheduler): " + n
+			return o
+		}
 	}
 	var bound, shard, nshards int
 	fmt.Sscan(c.Get("bound"), &bound)
